@@ -4,7 +4,7 @@ import json, os
 V = os.path.dirname(os.path.dirname(os.path.abspath(__file__)))
 CLAIMED = {
  "C12": dict(technique="static analysis: guard/dominance dataflow over clang CFGs + interprocedural requirement propagation along the resolved call graph (rule family G)",
-             text="Decides, for every history and each of the 8 subsets at once, the structural clause 'no element access of an optional bottom-up cache is reachable from a mutator, iterator constructor, garbage collection or file reader without the cache being known to be enabled', plus the enable/disable protocol. Guards are history independent, so the clause is decided exhaustively; the behavioural half (same mesh as with all kinds enabled) is not decided.",
+             text="Decides, for every history and each of the 8 subsets at once, the structural clause 'no element access of an optional bottom-up cache is reachable from a mutator, iterator constructor, garbage collection or file reader without the cache being known to be enabled', plus the enable/disable protocol. Also: recomputation skips pending deletions; cache-less sibling branches never look for one fixed orientation of a full entity in the stored lists. Guards are history independent, so the clause is decided exhaustively; the behavioural half (same mesh as with all kinds enabled) is not decided.",
              design="3/C12, 2/G"),
 }
 CLAIMED.update({
@@ -18,15 +18,15 @@ CLAIMED.update({
              text="Decides: every grow/erase/clear of a kind is mirrored by the property notification of that kind at the same position and under the same conditions (both directions); half-kind sizing 2n, erase order, tracker/entity-tag agreement in all template instantiations, default fill, mesh-kind sizing. Not decided: value preservation itself.",
              design="3/C03, 2/L"),
  "C17": dict(technique="static analysis: lock-step rule L for the swap effect + guard/dominance rules for the no-op return, processed sets and sibling rewrite branches",
-             text="Decides: every swap_K_indices swaps definition, flag, properties (half kinds side by side) and cache under identical conditions; self-swap returns before any effect; processed-set protocol (scope, find/insert key = rewritten entry); rewrite tests in both the cache-guided and linear branches. Not decided: involution / untouched others as behaviour.",
+             text="Decides: every swap_K_indices swaps definition, flag, properties (half kinds side by side) and cache under identical conditions; swap_bool saves a bool value, not a vector<bool> proxy; self-swap returns before any effect; processed-set protocol (scope, find/insert key = rewritten entry); rewrite tests in both the cache-guided and linear branches. Not decided: involution / untouched others as behaviour.",
              design="3/C17, 2/L"),
 })
 CLAIMED.update({
  "C07": dict(technique="static analysis: interprocedural byte-budget propagation (rule B) through templates/generic lambdas/virtual codecs, guard-based range/result/empty-sequence rules, loop-exit classification, exception-escape reachability with lexical try regions",
-             text="Decides structural necessary conditions of reader memory safety and termination for every byte string: every decoder byte consumption is budgeted before the decoder's creation site; every handle built from a decoded integer is range-checked on that very expression against the right counter (and from below when signed); add_face/add_cell results fail the read; sequence parameters are size-tested before front/back/[k]; every reader loop has a robust exit; no non-allocation throw escapes the readers. Not decided: semantic validity of an accepted mesh beyond handle ranges.",
+             text="Decides structural necessary conditions of reader memory safety and termination for every byte string: every decoder byte consumption is budgeted before the decoder's creation site; every handle built from a decoded integer is range-checked on that very expression against the right counter (and from below when signed); add_face/add_cell results fail the read; sequence parameters are size-tested before front/back/[k]; every reader loop has a robust exit on every one of its cycles; no non-allocation throw escapes the readers. Not decided: semantic validity of an accepted mesh beyond handle ranges.",
              design="3/C07, 2/B"),
  "C18": dict(technique="static analysis: CFG path rules over the ReadState protocol (no success after an error state, re-test after every chunk reader), must-hold guard sets at return Ok, validation must-pass-through table, stream-state rules for reader and writer",
-             text="Decides: no path from an error ReadState to a success result; chunk readers leave/guard after an error; callers re-test state_; return Ok requires stream exhausted, EOF chunk seen and header counts equal mesh counts; header/chunk/span validations present on the CFG; the reader never clears the stream state (sticky failbit + mandatory EOF chunk turn stream failures into errors); the writer returns Ok only under ostream.good() after the last write. Not decided: that every inconsistent header byte is caught (only the listed validations).",
+             text="Decides: no path from an error ReadState to a success result; chunk readers leave/guard after an error; callers re-test state_; the file body is read only in state HeaderRead; return Ok requires stream exhausted, EOF chunk seen, header counts equal mesh counts and - vertices being pre-allocated from the header - header n_verts equal to the vertices read from chunks; binary-reader handles are bounded by the *_read_ counters; optional chunks are skipped; header/chunk/span validations present on the CFG; the reader never clears the stream state (sticky failbit + mandatory EOF chunk turn stream failures into errors); the writer returns Ok only under ostream.good() after the last write. Not decided: that every inconsistent header byte is caught (only the listed validations).",
              design="3/C18"),
 })
 CLAIMED.update({
@@ -44,10 +44,10 @@ CLAIMED.update({
 })
 CLAIMED.update({
  "C13": dict(technique="static analysis: ownership rules over record field types and the copy paths (type-directed flow of storage pointers, clone/detach/attach protocol, template-argument agreement across all seven entity instantiations)",
-             text="Decides: kernel members have value semantics and defaulted copy operations; ResourceManager/GeometryKernel have user-provided copy operations in which only clone() results are inserted, attached to the target's tracker of the same entity tag, iterating only the persistent set; operator= has the self-assignment guard, anonymises, resizes all seven kinds to the source's counts, then clones; PropertyStorageT::clone copy-constructs from *this and detaches; Tracker copies never read the source's set. Not decided: value equality of the copy.",
+             text="Decides: kernel members have value semantics and defaulted copy operations; ResourceManager/GeometryKernel have user-provided copy operations in which only clone() results are inserted, attached to the target's tracker of the same entity tag, iterating only the persistent set; every user-provided operator= of the hierarchy (ResourceManager, GeometryKernel) starts with the self-assignment guard; ResourceManager's anonymises (clear_props un-persists before clearing the set), resizes all seven kinds to the source's counts, then clones; PropertyStorageT::clone copy-constructs from *this and detaches; Tracker copies never read the source's set. Not decided: value equality of the copy.",
              design="3/C13"),
  "C14": dict(technique="static analysis: guard-fact and N (no effect before throw) rules over all template instantiations of the registry functions, flag/set synchronisation, tracking back-pointer protocol, iteration-mutation check",
-             text="Decides: internal_find_property rejects the empty name and matches shared/name/type; create_* only after a failed lookup; request_property finds before creating; transition guards of set_shared/set_persistent with nothing changed before a throw; persistent set and flags change together (incl. clear_props); Tracked/Tracker protocol; no range-for mutates the set it walks. Two genuine defects are recorded as known findings (set_name bypass F16, down-cast of this in Tracked's ctor/dtor F21). Not decided: lifetime safety under arbitrary destruction orders beyond the protocol.",
+             text="Decides: internal_find_property rejects the empty name and matches shared/name/type; create_* only after a failed lookup; request_property finds before creating; transition guards of set_shared/set_persistent with nothing changed before a throw; persistent set and flags change together (incl. clear_props; the storage flags are written by their own setter only); the 68 entity-named convenience members forward with their own entity tag; Tracked/Tracker protocol; no range-for mutates the set it walks. Two genuine defects are recorded as known findings (set_name bypass F16, down-cast of this in Tracked's ctor/dtor F21). Not decided: lifetime safety under arbitrary destruction orders beyond the protocol.",
              design="3/C14"),
 })
 CLAIMED.update({
@@ -55,21 +55,21 @@ CLAIMED.update({
              text="Decides: every temporary switch of the deferred-deletion mode is undone on every path; collect_garbage's per-kind reset/zero/order/descending loops and early return; enable_deferred_deletion(false) passes through collect_garbage when the mode was on; StatusAttrib::garbage_collection guards (no double deletion, incidences established before the manifoldness pass, remap under is_valid from maps sized before collection, collection on every path); the second run of delete_cell_core by collect_garbage only resets entries it still owns; incidence recomputation skips pending deletions. Not decided: equivalence with immediate deletion, correctness of the remap.",
              design="3/C04, 2/P"),
  "C09": dict(technique="static analysis: must-call trigger rule with guard sets (both kinds, no deletion-mode condition, after the unlink), shape rules over the CFG of reorder_incident_halffaces and adjacent_halfface_in_cell",
-             text="Decides the triggers and the walk's shape: reorder_incident_halffaces is called in add_cell, delete_face_core, delete_cell_core and both enable functions under exactly 'both kinds available', independent of the deletion mode and after the victim is unlinked; forward walk appends, backward walk uses the opposite halfedge and prepends, both are bounded, the mirrored reverse is written to the opposite halfedge, replacement only when complete; adjacent_halfface_in_cell's acceptance condition has all three conjuncts. Not decided: that the walk produces the rotational order.",
+             text="Decides the triggers and the walk's shape: reorder_incident_halffaces is called in add_cell, delete_face_core, delete_cell_core and both enable functions under exactly 'both kinds available', independent of the deletion mode and after the victim is unlinked; forward walk appends, backward walk uses the opposite halfedge and prepends, both are bounded, the mirrored reverse is written to the opposite halfedge, replacement only when complete; adjacent_halfface_in_cell's acceptance condition has all three conjuncts; a trigger in a mutator may only be skipped for lists of fewer than two halffaces. Not decided: that the walk produces the rotational order.",
              design="3/C09"),
 })
 CLAIMED.update({
  "C08": dict(technique="static analysis: symbolic evaluation of the handle conversion functions in the sub-index decomposition domain (linear forms over x=2q+b), static_assert compile-fail witnesses over the constexpr handle members, shape rules for the mirror constructions",
-             text="Decides for EVERY index (symbolically, q unbounded): full(half(e,s))=e, subidx(half(e,s))=s, half(full(h),subidx(h))=h, opp(opp(h))=h, full(opp(h))=full(h), subidx(opp(h))=1-subidx(h) for both the handle-class members and the TopologyKernel conversion functions; the same laws at compile time at the boundaries and over two ranges; mirror construction shapes (opposite_halfedge/halfface, halfedge()/halfface(), halfface circulators, next/prev with wrap, add_face(vertices) orientation decision). Not decided: closedness of faces on arbitrary histories.",
+             text="Decides for EVERY index (symbolically, q unbounded): full(half(e,s))=e, subidx(half(e,s))=s, half(full(h),subidx(h))=h, opp(opp(h))=h, full(opp(h))=full(h), subidx(opp(h))=1-subidx(h) for both the handle-class members and the TopologyKernel conversion functions; the same laws at compile time at the boundaries and over two ranges; mirror construction shapes (opposite_halfedge/halfface, halfedge()/halfface(), halfface circulators, next/prev with wrap, add_face(vertices) orientation decision); add_face(halfedges) rejects open chains; no code reaches the face's stored halfedge order from a halfface handle without branching on the sub-index. Not decided: closedness of faces on arbitrary histories.",
              design="3/C08, 2/W"),
  "C15": dict(technique="static analysis: static_assert compile-fail witnesses over the constexpr TetTopology label tables, switch-table agreement on the CFG, permutation-literal parity, extracted face layout tables, count-use-after-deletion rule",
              text="Decides: all TetTopology label laws (names encode vertices, bit arithmetic, groups, rotations, parity, halfedge joins) exhaustively at compile time; the run-time dispatch maps each of the 32 labels to its own instance; every vertex-reordering literal in get_cell_vertices is an even permutation with the tested vertex first; both add_cell(vertex) overloads build the same closed oriented tetrahedron; split_* replace exactly one vertex per new cell; collapse/split restore the deletion mode and never read logical counts after a deferred deletion; valence guards. Not decided: collapse_edge's resulting mesh.",
              design="3/C15, 2/W"),
  "C16": dict(technique="static analysis: layout-table extraction from the vertex-list construction sequence, combinatorial cube-surface laws, symbolic evaluation of opposite_orientation, guard-fact extraction of the 24-entry orthogonal_orientation table and its algebraic laws",
-             text="Decides: the six vertex quadruples of add_cell(8 vertices) form a closed oriented cube surface with disjoint opposite pairs and the fixed handedness 2,4,3,5 (mirror 3,4,2,5), looked-up = created quadruples, four-vertex lookup, storage order; constants, accessors, opposite pairing, opposite_halfface_handle_in_cell; orthogonal_orientation's domain, third-axis, antisymmetry, sign-flip and handedness laws; order tables and start offsets of the ordering check; orientation-aware accessor in the re-ordering walk; sheet circulator's exclusion test; valence guards. Not decided: HexVertexIter walk, re-ordering of arbitrary permuted input.",
+             text="Decides: the six vertex quadruples of add_cell(8 vertices) form a closed oriented cube surface with disjoint opposite pairs and the fixed handedness 2,4,3,5 (mirror 3,4,2,5), looked-up = created quadruples, four-vertex lookup, storage order; constants, accessors, opposite pairing, opposite_halfface_handle_in_cell; opposite_orientation/orthogonal_orientation evaluated by the compiler for every argument against the axis cross products (witness generated from the current source text, any formulation); the table laws when written as a table; order tables and start offsets of the ordering check; orientation-aware accessor in the re-ordering walk; sheet circulator's exclusion test; valence guards. Not decided: HexVertexIter walk, re-ordering of arbitrary permuted input.",
              design="3/C16"),
  "C19": dict(technique="static analysis: index-table and reduction-offset rules over all instantiated VectorT members, shape rules for the GeometryKernel queries",
-             text="Decides (index tables only, no numerics): cross product component table; homogenized; every accumulate/inner_product skips exactly the elements that form its initial value; scalar compound operators apply `e op= s` with the parameter itself; vector compound operators combine component i with component i over [0,DIM); binary operators defer to the compound ones; min/max family uses the named operation over the full extent; vector/barycenter/normal shapes incl. the circulator that delivers each vertex once. Not decided: numerical results, rounding, stream I/O.",
+             text="Decides (index tables only, no numerics): cross product component table; homogenized; every accumulate/inner_product skips exactly the elements that form its initial value; scalar compound operators apply `e op= s` with the parameter itself; vector compound operators combine component i with component i over [0,DIM); binary operators defer to the compound ones; min/max family uses the named operation over the full extent, max_abs/min_abs in the abs-comparator form (other forms are not judged); vector/barycenter/normal shapes incl. the circulator that delivers each vertex once; NormalAttrib collection/exhaustion shapes. Not decided: numerical results, rounding, stream I/O.",
              design="3/C19"),
 })
 CLAIMED.update({
